@@ -67,6 +67,7 @@ class _Scan(ast.NodeVisitor):
         self.accesses = 0
         self.guard_assigns = []  # (line, function qualname, value source)
         self.reflection = []
+        self.stores = []         # (line, function qualname, statement source)
 
     def generic_visit(self, node):
         self.stack.append(node)
@@ -95,6 +96,9 @@ class _Scan(ast.NodeVisitor):
             par = self.stack[-1] if self.stack else None
             val = ast.unparse(par.value) if isinstance(par, ast.Assign) else '?'
             self.guard_assigns.append((node.lineno, self._qual(), val))
+        if node.attr == COUNTER and isinstance(node.ctx, (ast.Store, ast.Del)):
+            par = self.stack[-1] if self.stack else None
+            self.stores.append((node.lineno, self._qual(), ast.unparse(par) if par is not None else '?'))
         if node.attr == COUNTER:
             self.accesses += 1
             qual = self._qual()
@@ -145,6 +149,18 @@ def ob_owned(world=None):
     return not bad, {'accesses': n, 'unprotected': bad}
 
 
+def ob_single_writer(world=None):
+    """the invariant 'counter == number of ids handed out' needs more than protection: outside __init__ the counter
+    is written by exactly one statement, `self._cur_req_id += 1` in _generate_request_id (whose sequential VC shows
+    that each execution hands out exactly the value it read); no other code, locked or not, may move it"""
+    scans = _scan_all()
+    stores = [(os.path.basename(s.path),) + st for s in scans for st in s.stores]
+    outside = [st for st in stores if st[2] != '_HttpConnImpl.__init__']
+    ok = len(outside) == 1 and outside[0][2] == '_HttpConnImpl._generate_request_id' and \
+        outside[0][3].replace(' ', '') == 'self._cur_req_id+=1'
+    return ok, {'stores_outside_init': outside}
+
+
 def ob_lock_is_a_lock(world=None):
     scans = _scan_all()
     assigns = [(os.path.basename(s.path),) + a for s in scans for a in s.guard_assigns]
@@ -162,6 +178,7 @@ def ob_no_reflection(world=None):
 STATIC_OBLIGATIONS = {
     'C16.lock_invariant.owned': (ob_owned, 'top'),
     'C16.lock_invariant.lock_is_a_lock': (ob_lock_is_a_lock, 'top'),
+    'C16.lock_invariant.single_writer': (ob_single_writer, 'top'),
     'C16.lock_invariant.no_reflection': (ob_no_reflection, 'top'),
 }
 
